@@ -104,14 +104,20 @@ class EvalCtx(object):
         else:
             log.warn('Unknown node type %r %r', node_type, node)
 
-    def declarations(self, node, result=[]):
-        # type: (Name | AstName | MultiName | MultiValue | Attribute | ImportedName, list[Name]) -> list[Name]
+    def declarations(self, node, result=[], _seen=None):
+        # type: (Name | AstName | MultiName | MultiValue | Attribute | ImportedName, list[Name], set[int] | None) -> list[Name]
+        seen = set() if _seen is None else _seen
+        if id(node) in seen:
+            # names importing each other in a cycle
+            return result
+        seen.add(id(node))
         node_type = type(node)
         cname = None
         if node_type is AstName:
             ast_name = node  # type: AstName # type: ignore[assignment]
-            names = ast_name.flow.names_at(np(ast_name))  # type: ignore[attr-defined]
-            cname = names.get(ast_name.id)
+            if hasattr(ast_name, 'flow'):  # a name the analysis never reached has none
+                names = ast_name.flow.names_at(np(ast_name))  # type: ignore[attr-defined]
+                cname = names.get(ast_name.id)
         elif node_type is MultiName:
             mname = node  # type: MultiName # type: ignore[assignment]
             names = mname.valid_names
@@ -144,6 +150,6 @@ class EvalCtx(object):
             result.append(node)  # type: ignore[arg-type]
 
         if cname:
-            return self.declarations(cname, result)
+            return self.declarations(cname, result, seen)
 
         return result
